@@ -43,53 +43,51 @@ def run(model, rep):
                        'namespace before the assignment loop. Not decided: that preserving a name changes nothing else.')
     for r, t in [('C10.FLOW', 'preserve lists wired to the right consumers, normalised, __all__ and entrypoint included'), ('C10.GUARD', 'membership => pin; reserved before assignment')]:
         rep.rule(r, t)
-    P = Pipeline(model)
-    mi = P.fi
-    defs = P.defs
-    wiring = [('allow_rename_locals', 'preserve_locals', 'preserve_locals'), ('allow_rename_globals', 'preserve_globals', 'preserve_globals'), ('rename', 'preserved_globals', 'preserve_globals')]
-    for stage, callee_param, src_param in wiring:
-        st = P.stage(stage)
-        t = st.targets[0][0]
-        other = [p for p in ('preserve_locals', 'preserve_globals') if p != src_param]
-        arg = None
-        if callee_param in t.positional:
-            i = t.positional.index(callee_param)
-            if i < len(st.call.args):
-                arg = st.call.args[i]
-        if arg is None:
-            arg = kwarg(st.call, callee_param)
-        where = mi.loc(st.call)
-        key = 'C10.FLOW|%s.%s' % (stage, callee_param)
-        if arg is None:
-            rep.violation('C10.FLOW', where, src(st.call), 'parameter %s of %s is not supplied: the preserve list is dropped' % (callee_param, stage), key=key)
-            continue
-        if not isinstance(arg, ast.Name):
-            rep.violation('C10.FLOW', where, src(st.call), '%s receives %s, not the normalised list' % (callee_param, src(arg)), key=key)
-            continue
-        ok, why = derives_from(defs, arg.id, src_param, other)
-        rep.check(ok, 'C10.FLOW', where, '%s(... %s=%s)' % (stage, callee_param, arg.id), why, '%s does not receive the caller\'s %s: %s' % (stage, src_param, why), key=key)
-        uncond = st.facts is not None and not [k for (k, p) in st.facts if not k.startswith('<') and not k.startswith('isinstance(remove_annotations')]
-        rep.check(uncond, 'C10.FLOW', where, '%s runs on every path' % stage, 'unconditional', 'consumer %s is skipped on some paths (%s): preserve requests are ignored there' %
-                  (stage, [k for (k, p) in (st.facts or ()) if not k.startswith('<')][:3]), key=key + '|uncond')
-    # normalisation arms (abstract evaluation of the prefix of minify is too heavy: path facts instead)
-    for p in ('preserve_locals', 'preserve_globals'):
-        arms = {'none': False, 'str': False}
-        for n in walk_own(mi.node):
-            if isinstance(n, ast.Assign) and isinstance(n.targets[0], ast.Name) and n.targets[0].id == p:
-                facts = P.F.facts_at(n)
-                if facts is None:
-                    continue
-                if ('%s is None' % p, True) in facts and isinstance(n.value, ast.List) and not n.value.elts:
-                    arms['none'] = True
-                if ('isinstance(%s, str)' % p, True) in facts and isinstance(n.value, ast.List) and len(n.value.elts) == 1 and src(n.value.elts[0]) == p:
-                    arms['str'] = True
-        rep.check(arms['none'], 'C10.FLOW', mi.loc(), '%s: None -> []' % p, 'arm present', 'None is not normalised to an empty list', key='C10.FLOW|norm|%s|none' % p)
-        rep.check(arms['str'], 'C10.FLOW', mi.loc(), '%s: str -> [str]' % p, 'arm present', 'a single name given as a string is not wrapped in a list: it would be treated as a list of characters', key='C10.FLOW|norm|%s|str' % p)
-    # type parameter names recorded by the binder are added to both lists
-    for p in ('preserve_locals', 'preserve_globals'):
-        mentions = any(isinstance(d, ast.AST) and 'module.preserved' in src(d) for d in defs.get(p, [])) or \
-            any(isinstance(c.func, ast.Attribute) and src(c.func.value) == p and c.func.attr == 'extend' and 'module.preserved' in src(c) for c in calls(mi.node))
-        rep.check(mentions, 'C10.FLOW', mi.loc(), '%s includes module.preserved' % p, 'type parameter names pinned', 'names recorded as preserved by the binder no longer reach %s' % p, key='C10.FLOW|preserved|' + p)
+    # minify() itself is evaluated (pmstatic.apirun) with every stage replaced by a recorder: what do the three consumers receive?
+    from .. import apirun
+    mi = model.func('python_minifier.minify')
+    spellings = [('None', None, []), ('a str', 'solo', ['solo']), ('a list', ['a', 'b'], ['a', 'b']), ('a tuple', ('a', 'b'), ['a', 'b']), ('an empty list', [], [])]
+
+    def arg_of(ev, fi_name, param, index):
+        (_k, _n, a, kw) = ev
+        if param in kw:
+            return kw[param]
+        return a[index] if index < len(a) else '<not passed>'
+    for (lab_l, val_l, want_l) in spellings:
+        for (lab_g, val_g, want_g) in spellings:
+            if (lab_l, lab_g) not in (('None', 'None'), ('a str', 'a list'), ('a list', 'a str'), ('a tuple', 'an empty list'), ('an empty list', 'a tuple'), ('a list', 'a list')):
+                continue
+            for preserved in ((), ('T', 'K')):
+                for rename_globals in (False, True):
+                    caller_l = list(val_l) if isinstance(val_l, list) else val_l
+                    caller_g = list(val_g) if isinstance(val_g, list) else val_g
+                    kw = {'preserve_locals': caller_l, 'preserve_globals': caller_g, 'rename_globals': rename_globals}
+                    r = apirun.run(model, kwargs=kw, preserved=preserved)
+                    label = 'preserve_locals=%s, preserve_globals=%s, binder-preserved=%s, rename_globals=%s' % (lab_l, lab_g, list(preserved), rename_globals)
+                    key = 'C10.FLOW|wiring|' + label
+                    if r.outcome[0] != 'return':
+                        rep.violation('C10.FLOW', mi.loc(), label, 'minify() fails: %s' % (r.outcome,), key=key)
+                        continue
+                    problems = []
+                    extra = sorted(preserved)
+                    for (consumer, param, index, want) in (('allow_rename_locals', 'preserve_locals', 2, want_l + extra), ('allow_rename_globals', 'preserve_globals', 2, want_g + extra),
+                                                           ('rename', 'preserved_globals', 2, want_g + extra)):
+                        ev = r.event(consumer)
+                        if ev is None:
+                            problems.append('%s is not called: preserve requests are ignored' % consumer)
+                            continue
+                        t = model.funcs.get(apirun.imported_callables(model).get(consumer, ('', ''))[1])
+                        idx = t.positional.index(param) if t is not None and param in t.positional else index
+                        got = arg_of(ev, consumer, param, idx)
+                        if not isinstance(got, (list, tuple)) or sorted(got) != sorted(want) or len(got) != len(want):
+                            problems.append('%s receives %s=%r, expected the names %r' % (consumer, param, got, want))
+                    order = r.names()
+                    if 'allow_rename_globals' in order and 'rename' in order and order.index('rename') < order.index('allow_rename_globals'):
+                        problems.append('names are assigned before the global permissions are set')
+                    if caller_l != val_l or caller_g != val_g:
+                        problems.append('the caller\'s list was modified: %r / %r' % (caller_l, caller_g))
+                    rep.check(not problems, 'C10.FLOW', mi.loc(), label, 'the three consumers receive the caller\'s names plus the names the binder recorded',
+                              '; '.join(problems[:3]), key=key)
 
     # find__all__ feeds the global set inside allow_rename_globals
     ag = model.func(UTIL + '.allow_rename_globals')
@@ -160,7 +158,7 @@ def run(model, rep):
             ok = rg is True and isinstance(pgs, list) and ep in pgs
             why = 'entrypoint must be preserved: rename_globals=%r preserve_globals=%r' % (rg, pgs)
         rep.check(ok, 'C10.FLOW', aw.loc(), 'awslambda(entrypoint=%r) -> minify(rename_globals=%r, preserve_globals=%r)' % (ep, rg, pgs), 'as documented', why, key='C10.FLOW|awslambda|%r' % ep)
-    rep.floor('C10.FLOW', 16)
+    rep.floor('C10.FLOW', 30)
 
     # ---------------- GUARD: gates pin exactly the preserved names (abstract evaluation)
     for fname, make in (('allow_rename_locals', 'FunctionDef'), ('allow_rename_globals', 'Module')):
